@@ -164,6 +164,14 @@ pub fn check_migrate(pre: &World, post: &World, msg: &Value, out: &Outcome, st: 
     let pre_map: BTreeMap<String, Vec<u8>> = pre_bids.iter().cloned().collect();
     let in_window = matches!(&ver, Ver::Clean(a, b, c) if ver_ge((*a, *b, *c), MIN_SUPPORTED) && !ver_ge((*a, *b, *c), BID_FORMAT_CHANGE));
     let gray = matches!(&ver, Ver::Pre(..));
+    // A pre-release whose release triple lies strictly inside the window (0.17.0-beta.2, 0.18.2-rc.1) is a
+    // version that stored bids with an event log. Whether migrating from it is supported is not stated (the
+    // pinned tree refuses), but an ACCEPTED migration from it must not lose those bids: they are converted.
+    // A pre-release of the format-change version itself may convert or leave alone, never anything else; a
+    // pre-release of a later version is at or after the format change.
+    let pre_inside = matches!(&ver, Ver::Pre(a, b, c) if ver_ge((*a, *b, *c), MIN_SUPPORTED) && !ver_ge((*a, *b, *c), BID_FORMAT_CHANGE));
+    let pre_at_change = matches!(&ver, Ver::Pre(a, b, c) if (*a, *b, *c) == BID_FORMAT_CHANGE);
+    let in_window = in_window || pre_inside;
     if pre_map.keys().collect::<Vec<_>>() != post_bids.keys().collect::<Vec<_>>() {
         viol(viols, "C15", "conversion", "a bid was lost or invented by migration", format!("{:?} -> {:?}", pre_map.keys().collect::<Vec<_>>(), post_bids.keys().collect::<Vec<_>>()));
     }
@@ -194,7 +202,13 @@ pub fn check_migrate(pre: &World, post: &World, msg: &Value, out: &Outcome, st: 
                     viol(viols, "C15", "conversion", "converted bid differs from the original amounts minus the sums over its events", format!("old {} ; expected {} ; got {:?}", String::from_utf8_lossy(raw), exp, got));
                 }
             }
-            Some(_) if gray => {}
+            Some(exp) if gray && pre_at_change => {
+                st.eval("C15", format!("old-format-at-prerelease-of-the-change|{}", vclass));
+                let got: Option<Value> = serde_json::from_slice(after).ok();
+                if after != raw && got.as_ref() != Some(&exp) {
+                    viol(viols, "C15", "conversion", "old-format bid neither converted nor left alone by an accepted migration", format!("old {} ; got {:?}", String::from_utf8_lossy(raw), got));
+                }
+            }
             Some(_) => {
                 st.eval("C15", format!("old-format-outside-window|{}", vclass));
                 if after != raw {
@@ -268,7 +282,7 @@ pub const VERSIONS_IN_WINDOW: &[&str] = &["0.16.2", "0.16.3", "0.17.0", "0.18.2"
 pub const VERSIONS_AFTER: &[&str] = &["0.19.1", "0.19.2", "0.20.0", "1.0.0", "2.3.4", "1.0.0+meta"];
 pub const VERSIONS_OLD: &[&str] = &["0.16.1", "0.15.9", "0.15.0", "0.14.9", "0.1.0", "0.0.0", "0.16.2-rc1"];
 pub const VERSIONS_BAD: &[&str] = &["", "1.0", "v1.0.0", "1.0.0.0", "abc", "01.2.3", "1.2.x", " 1.0.0"];
-pub const VERSIONS_GRAY: &[&str] = &["0.19.1-rc1", "1.0.0-alpha", "0.17.0-beta.2"];
+pub const VERSIONS_GRAY: &[&str] = &["0.19.1-rc1", "1.0.0-alpha", "0.17.0-beta.2", "0.18.2-rc.1", "0.19.0-rc.2", "0.16.3-alpha+b1"];
 
 pub fn version_op(ver: &str) -> Op {
     Op::PutRaw { key: b"version_info".to_vec(), value: Some(serde_json::to_vec(&json!({"definition": "ats_smart_contract", "version": ver})).unwrap()) }
